@@ -73,19 +73,20 @@ func genC09(r *prng) *plan {
 }
 
 type c9offer struct {
-	id       int
-	puppet   *puppet
-	keys     [][]byte
-	items    [][]byte
-	beh      int
-	sentAt   time.Duration
-	replyAt  time.Duration
-	reply    acceptReply
-	accKeys  [][]byte
-	accItems [][]byte
-	wrote    bool // complete stream written and closed without error
-	wroteAt  time.Duration
-	matched  bool
+	id          int
+	puppet      *puppet
+	keys        [][]byte
+	items       [][]byte
+	beh         int
+	sentAt      time.Duration
+	replyAt     time.Duration
+	earliestEnd time.Duration // the accepted transfer cannot have ended before this instant
+	reply       acceptReply
+	accKeys     [][]byte
+	accItems    [][]byte
+	wrote       bool // complete stream written and closed without error
+	wroteAt     time.Duration
+	matched     bool
 }
 
 func c9key(i int64) []byte {
@@ -144,6 +145,7 @@ func runC09(seed uint64) {
 	}
 	// in-flight windows: key -> list of [from,to) during which it is certainly being received
 	inflight := map[string][]struct{ from, to time.Duration }{}
+	accBy := map[string][]*c9offer{} // key -> offers in which the node accepted it
 
 	for _, op := range p.Ops {
 		switch op.K {
@@ -166,7 +168,9 @@ func runC09(seed uint64) {
 			offers = append(offers, o)
 			w.op("offer#%d from %s: %d keys, then %s", o.id, o.puppet.cfg.name, len(o.keys), c9Names[o.beh])
 			w.abstract("offer n=%d %s", len(o.keys), c9Names[o.beh])
-			w.spawn("offer", func() error { return c9RunOffer(w, V, vp, o, tr, ver, common, faults, limit, storedAt, inflight) })
+			w.spawn("offer", func() error {
+				return c9RunOffer(w, V, vp, o, tr, ver, common, faults, limit, storedAt, inflight, accBy)
+			})
 			if op.n(3) == 1 {
 				// sequential: wait for the reply before the next operation
 				w.runUntil(func() bool { return o.replyAt != 0 }, 3*time.Second)
@@ -256,7 +260,7 @@ func runC09(seed uint64) {
 	w.finish()
 }
 
-func c9RunOffer(w *world, V *baseNode, vp *proto, o *c9offer, tr *offerTracker, ver uint8, common, faults bool, limit int, storedAt map[string]time.Duration, inflight map[string][]struct{ from, to time.Duration }) error {
+func c9RunOffer(w *world, V *baseNode, vp *proto, o *c9offer, tr *offerTracker, ver uint8, common, faults bool, limit int, storedAt map[string]time.Duration, inflight map[string][]struct{ from, to time.Duration }, accBy map[string][]*c9offer) error {
 	o.sentAt = w.now()
 	resp, err := o.puppet.talk(V.self(), portalwire.History, encOffer(o.keys))
 	o.replyAt = w.now()
@@ -293,8 +297,30 @@ func c9RunOffer(w *world, V *baseNode, vp *proto, o *c9offer, tr *offerTracker, 
 		return nil
 	}
 	now := w.now()
+	// the transfer of this offer cannot have ended before the puppet dials (or, if it never does,
+	// before the node's own 15 s wait for the connection is over)
+	switch o.beh {
+	case c9NoDial:
+		o.earliestEnd = o.sentAt + 15*time.Second
+	case c9Slow:
+		o.earliestEnd = now + 8*time.Second
+	default:
+		o.earliestEnd = now
+	}
+	seenKey := map[string]bool{}
 	for _, i := range a.acceptedIdx() {
 		k := o.keys[i]
+		if ver == 1 && !seenKey[string(k)] {
+			// two offers both accepted k: one of them was handled first, and its transfer was still
+			// pending when the other was handled unless it could have ended before the other's reply
+			for _, x := range accBy[string(k)] {
+				if x != o && o.replyAt <= x.earliestEnd && x.replyAt <= o.earliestEnd {
+					w.violate("C09", "accepted-in-flight", "offer#%d key %d accepted (v1) although offer#%d, still pending, had the same key accepted (replies at %v and %v, neither transfer could have ended before the other reply)", o.id, i, x.id, x.replyAt, o.replyAt)
+				}
+			}
+			accBy[string(k)] = append(accBy[string(k)], o)
+			seenKey[string(k)] = true
+		}
 		if !vp.p.InRange(vp.p.ToContentId(k)) {
 			w.violate("C09", "accepted-out-of-range", "offer#%d key %d accepted although the node's own in-range test rejects it", o.id, i)
 		}
